@@ -124,6 +124,8 @@ func c05(c *core.Ctx) {
 	c.Rule("C05.reader", "the only reads from the connection in packages uacp, uasc, opcua and server are io.ReadFull calls inside (*uacp.Conn).Receive (frame boundaries depend on the declared size only, never on TCP segmentation)", 2)
 	c.Rule("C05.shape", "Receive reads exactly b[:hdrlen], decodes that header, and then reads exactly b[hdrlen:MessageSize]; both size checks (MessageSize > ReceiveBufSize, MessageSize < hdrlen) lie between the two reads with error returns on their failing edges; every non-nil result is b[:MessageSize] of the buffer allocated in this call and is returned only after the body read succeeded", 5)
 	c.Rule("C05.bounds", "every slice expression in Receive, Handshake and srvhandshake is in bounds for all frames: variable bounds are dominated by the comparisons that justify them, constant bounds by the proven minimum length of a received frame, and the receive buffer is at least hdrlen long", 6)
+	c.Rule("C05.accept", "Receive delivers every frame from the 8-byte header-only frame up to the negotiated buffer size: its size tests reject exactly MessageSize > ReceiveBufSize and MessageSize < hdrlen (C06.accept applies verbatim)", 2)
+	c06Accept(c, "C05.accept")
 	c.Rule("C05.ack", "an Acknowledge taken from the wire is installed as the connection's parameters only after its buffer sizes were compared with a lower bound (the receive buffer is allocated with that size and sliced at hdrlen)", 1)
 
 	// reader
